@@ -83,7 +83,7 @@ CHECKS = {
             "Files changed by edit = files reported by check = regular non-symlink files below source_dir with an exactly matching extension; everything else byte- and inode-identical; lock next to the config.",
             "A file named just `.rs` and non-UTF-8 names are outside the alphabet.", "§3 C15"),
     "C16": ("E4 configs", "exploration",
-            "full product of configuration switches x lock states x trees x mode against a reference model of the guide, plus follow-up histories",
+            "full product of configuration switches x lock states x trees x mode against a reference model of the guide, plus follow-up histories, configuration-syntax variants and every read fault on the configuration file",
             "Exit status, start ID, lock file before/after and style/scope agree with the guide for every combination; invalid set-ups exit non-zero and change nothing.",
             "Reference model of the guide (~40 lines).", "§3 C16"),
     "C17": ("E3-vh + E4", "exploration",
@@ -129,7 +129,7 @@ def main():
             "add_only": True,
         },
         "engines": [
-            {"name": "E1-fsx", "path": "engines/fsx/fsx_shim.c + lib/fsx.py", "serves_properties": ["C01", "C02", "C04", "C05", "C07", "C08", "C18"],
+            {"name": "E1-fsx", "path": "engines/fsx/fsx_shim.c + lib/fsx.py", "serves_properties": ["C01", "C02", "C04", "C05", "C07", "C08", "C16", "C18"],
              "kind_free_text": "LD_PRELOAD libc interposer + deviation-bounded exhaustive explorer of the real release binary"},
             {"name": "E2-hist", "path": "lib/props/c02.py", "serves_properties": ["C02"],
              "kind_free_text": "explicit-state BFS over (tree, lock, retired IDs); transitions execute the real binary"},
